@@ -617,7 +617,14 @@ where
                         let data = annotation.data().next().unwrap();
                         let set = data.store();
                         AnnotationCsv {
-                            id: annotation.id().map(|x| Cow::Borrowed(x)),
+                            //annotations without public ID get a temporary one, other annotations may refer to it
+                            id: if let Some(id) = annotation.id() {
+                                Some(Cow::Borrowed(id))
+                            } else {
+                                Some(Cow::Owned(
+                                    annotation.as_ref().temp_id().expect("temp id must succeed"),
+                                ))
+                            },
                             data_ids: if let Some(id) = data.id() {
                                 Cow::Borrowed(id)
                             } else {
@@ -680,7 +687,14 @@ where
                             };
                         }
                         AnnotationCsv {
-                            id: annotation.id().map(|x| Cow::Borrowed(x)),
+                            //annotations without public ID get a temporary one, other annotations may refer to it
+                            id: if let Some(id) = annotation.id() {
+                                Some(Cow::Borrowed(id))
+                            } else {
+                                Some(Cow::Owned(
+                                    annotation.as_ref().temp_id().expect("temp id must succeed"),
+                                ))
+                            },
                             data_ids: Cow::Owned(data_ids),
                             set_ids: Cow::Owned(set_ids),
                             selectortype: AnnotationCsv::set_selectortype(
